@@ -238,6 +238,63 @@ def run(ctx):
         (ctx.ok if ok2 else ctx.bad)('R14d', 'R14d:%s' % h, 'delivered value is the stored payload; ' + what if ok2 else
                                      'integrity of the delivered value is not established on this path (expected: %s; value from stored payload: %s)' % (what, from_mbar), f, line=n_.line)
     ctx.floor('R14e', ne, 4)
+    # ---------------------------------------------------------------- R14h a slot is handed out once, in both modes
+    # In FIFO mode the comparison with the expected sequence number (R14e:order) together with its advance filters repeats.
+    # A non-FIFO channel has no such filter, so each delivering exit needs a once-only justification of its own:
+    #  J1 the trigger is the *equality* of the ready counter with 2t+1 (the counter counts every party once, R14b),
+    #  J2 the exit is reachable only for answers to an l-retrieve of our own, and l-retrieve is sent in FIFO mode only,
+    #  J3 a per-slot "already handed out" table (a member map keyed by the tag, not one of the per-link first-time
+    #     filters) is tested on the path and written before the exit,
+    #  J0 the exit is reachable in FIFO mode only.
+    fifo_t = T.mk('this', 'fifo')
+    retr_fifo_only = True
+    for nid, ev in a.all_events('mcall'):
+        if ev[1].split('::')[-1] in ('insert', 'operator[]') and ev[6] is not None and root_member(ev[6]) == 'retrieve':
+            if not any(T.node(fa) == ('truthy', fifo_t) for fa in a.instate[nid].facts):
+                retr_fifo_only = False
+    nh = 0
+    for n_, kind, val, st in a.exits():
+        if kind != 'return' or val is None or T.node(val) != ('bool', True):
+            continue
+        nh += 1
+        h = handler_of(a, st.facts) or 'buffer'
+        why = None
+        doms = set(chain_back(a, n_, 400))
+        for fa in st.facts:
+            fn_ = T.node(fa)
+            if fn_[0] == 'if' and T.node(fn_[1]) == ('falsy', fifo_t):
+                fn_ = T.node(fn_[2])          # what holds on a non-FIFO channel
+            if fn_ == ('truthy', fifo_t):
+                why = 'reachable in FIFO mode only'
+            if fn_[0] == 'rel' and fn_[1] == '==':
+                for x, y in ((fn_[2], fn_[3]), (fn_[3], fn_[2])):
+                    if named(T, thr_poly(T, x) or {}) == '2t+1' and counter_role(a, y) == 'ready':
+                        why = why or 'triggered by the ready counter being equal to 2t+1'
+            cnt = None
+            if fn_[0] == 'falsy' and T.node(fn_[1])[0] == 'mc':
+                cnt = T.node(fn_[1])
+            if fn_[0] == 'rel' and (fn_[1] == '==' and any(T.is_int(z, 0) for z in fn_[2:]) or fn_[1] == '<=' and T.is_int(fn_[3], 0) or
+                                    fn_[1] == '<' and T.is_int(fn_[3], 1)):
+                for z in fn_[2:]:
+                    if T.node(z)[0] == 'mc':
+                        cnt = T.node(z)
+            if fn_[0] == 'truthy' and T.node(fn_[1])[0] == 'mc' and T.node(fn_[1])[1].endswith('::count') and \
+                    'retrieve[' in T.show(T.node(fn_[1])[2], 2) and 'retrieve_buf' not in T.show(T.node(fn_[1])[2], 2) and retr_fifo_only:
+                why = why or 'reachable only for answers to an l-retrieve, which is sent in FIFO mode only'
+            if cnt is not None and cnt[1].endswith('::count') and T.node(cnt[2])[0] == 'this':
+                mem = T.node(cnt[2])[1]
+                written = any(ev[0] == 'mcall' and ev[1].split('::')[-1] in ('insert', 'operator[]', 'emplace') and ev[6] is not None and root_member(ev[6]) == mem and ev[6] == ('m', mem)
+                              for cn in doms for ev in a.events.get(cn, []))
+                if written:
+                    why = why or 'guarded by the per-slot table %s, which is written before the value is handed out' % mem
+        key = 'R14h:%s' % h
+        if why:
+            ctx.ok('R14h', key, 'on a non-FIFO channel this delivery cannot repeat for one slot: ' + why, f, line=n_.line)
+        else:
+            ctx.bad('R14h', key, 'on a non-FIFO channel nothing keeps this exit from handing out the same slot again (no sequence filter in that mode, no once-only '
+                    'trigger, no per-slot table): %s' % ('every further r-answer for the slot delivers it once more' if h == 'r_answer' else
+                                                       'every buffered copy of the slot is delivered' if h == 'buffer' else 'the slot can be delivered repeatedly'), f, line=n_.line)
+    ctx.floor('R14h', nh, 4)
     # DeliverFrom: buffered value handed out only for the current ID
     g = prog.fn(CLS + '::DeliverFrom', 0)
     b = ctx.analysis(g)
